@@ -11,57 +11,14 @@ import vlib
 from checks import streams
 
 
-def run(ctx):
-    vlib.model_check(ctx, "MC_Memo", "MC_Memo.cfg", workers=4, heap="3g")
-    mut = ctx.path("MC_Memo_mut.cfg")
-    open(mut, "w").write(open(os.path.join(vlib.SPEC, "MC_Memo.cfg")).read().replace("Bug_SharedScratch = FALSE", "Bug_SharedScratch = TRUE"))
-    vlib.mutant_refuted(ctx, "MC_Memo", mut, "Bug_SharedScratch")
-    q = ctx.quick()
-    prm = dict(langs=vlib.LANGS, randn=12 if q else 80, seed=ctx.seed % 100000, thrs=["0", "10"],
-               want=["t2d", "rew", "toks", "occs"], vias=["concrete", "facade"])
-    pj = ctx.path("params.json")
-    json.dump(prm, open(pj, "w"))
-    req, n = vlib.generate(ctx, "Gen_Facade", None, "req.ndjson", env={"PARAMS": pj})
-    # families of inputs that differ only by inflection / spelling variant (what a too-coarse cache key would conflate):
-    # every ordinal inflection of the same rank, every spelling variant of the same number, k leading zeros
-    from checks import spell
-    extra = []
-    for kind, p2 in (("ord", dict(upto=130 if q else 1200, randn=60 if q else 600)), ("card", dict(upto=130 if q else 1200, randn=60 if q else 600)),
-                     ("zeros", dict(upto=40 if q else 300, randn=20 if q else 200))):
-        prm2 = dict(kind=kind, rlow=[0, 21, 181], rhigh=[0, 1], seed=ctx.seed % 100000, **p2)
-        extra.append(spell.generate(ctx, "Gen_Spell", prm2))
-        os.rename(extra[-1], ctx.path("req_%s.ndjson" % kind))
-        extra[-1] = ctx.path("req_%s.ndjson" % kind)
-    # two numbers being decoded at once by one interpreter (hidden state shared between builders): word sequences of Gen_Apply paired up
-    prm3 = dict(allpairs=False, pairs=250 if q else 3000, randn=250 if q else 3000, seed=ctx.seed % 100000)
-    ap = spell.generate(ctx, "Gen_Apply", prm3)
-    seqs = {}
-    for r in vlib.read_ndjson(ap):
-        if not r["dec"] and len(r["words"]) >= 2:
-            seqs.setdefault(r["lang"], []).append(r["words"])
-    inter = ctx.path("req_interleave.ndjson")
-    with open(inter, "w", encoding="utf-8") as f:
-        for lang, ws in seqs.items():
-            for j in range(0, len(ws) - 1, 2):
-                for via in ("concrete", "facade"):
-                    f.write(json.dumps({"mode": "interleave", "lang": lang, "via": via, "wa": ws[j], "wb": ws[j + 1]}, ensure_ascii=False) + "\n")
-    extra.append(inter)
-    with open(req, "ab") as f:
-        base = 500000000
-        for e in extra:
-            for line in open(e, "rb"):
-                d = json.loads(line)
-                base += 1
-                d["i"] = base
-                d.setdefault("mode", "text")
-                f.write((json.dumps(d, ensure_ascii=False) + "\n").encode("utf-8"))
+def exec_validate_threads(ctx, req, nthreads):
+    """runs the call set on shared interpreters (fresh reference, sequential passes, threads), validates the history against Memo"""
     obs = ctx.path("obs.ndjson")
-    nthreads = 8 if q else 16
     h = vlib.harness(ctx, "threads", req, obs, args=[nthreads, ctx.seed])
     if h["rc"] != 0:
         ctx.failures.append(dict(verdict="harness-child-died", cls="harness-child-died",
                                  sig=dict(verdict="harness-child-died", rc=h["rc"], stderr=h["stderr"][-500:])))
-        return vlib.finish(ctx)
+        return None
     noise = len(h["stdout"]) + len(h["stderr"])
     with open(obs, "a", encoding="utf-8") as f:
         f.write(json.dumps({"k": -1, "who": "streams", "seq": 0, "res": str(noise)}) + "\n")
@@ -107,6 +64,57 @@ def run(ctx):
         sig = dict(verdict=f["verdict"], lang=(rq or {}).get("lang"), input=(rq or {}).get("text") or (rq or {}).get("words") or (rq or {}).get("texts") or [(rq or {}).get("wa"), (rq or {}).get("wb")],
                    output=(h["stdout"][:200] + h["stderr"][:200]) if f["verdict"] == "output-on-standard-streams" else "")
         ctx.failures.append(dict(verdict=f["verdict"], cls="%s/%s" % (f["verdict"], sig["lang"]), sig=sig, request=rq))
+    return reqs
+
+
+def run(ctx):
+    vlib.model_check(ctx, "MC_Memo", "MC_Memo.cfg", workers=4, heap="3g")
+    mut = ctx.path("MC_Memo_mut.cfg")
+    open(mut, "w").write(open(os.path.join(vlib.SPEC, "MC_Memo.cfg")).read().replace("Bug_SharedScratch = FALSE", "Bug_SharedScratch = TRUE"))
+    vlib.mutant_refuted(ctx, "MC_Memo", mut, "Bug_SharedScratch")
+    q = ctx.quick()
+    prm = dict(langs=vlib.LANGS, randn=12 if q else 80, seed=ctx.seed % 100000, thrs=["0", "10"],
+               want=["t2d", "rew", "toks", "occs"], vias=["concrete", "facade"])
+    pj = ctx.path("params.json")
+    json.dump(prm, open(pj, "w"))
+    req, n = vlib.generate(ctx, "Gen_Facade", None, "req.ndjson", env={"PARAMS": pj})
+    # families of inputs that differ only by inflection / spelling variant (what a too-coarse cache key would conflate):
+    # every ordinal inflection of the same rank, every spelling variant of the same number, k leading zeros
+    from checks import spell
+    extra = []
+    for kind, p2 in (("ord", dict(upto=130 if q else 1200, randn=60 if q else 600)), ("card", dict(upto=130 if q else 1200, randn=60 if q else 600)),
+                     ("zeros", dict(upto=40 if q else 300, randn=20 if q else 200))):
+        prm2 = dict(kind=kind, rlow=[0, 21, 181], rhigh=[0, 1], seed=ctx.seed % 100000, **p2)
+        extra.append(spell.generate(ctx, "Gen_Spell", prm2))
+        os.rename(extra[-1], ctx.path("req_%s.ndjson" % kind))
+        extra[-1] = ctx.path("req_%s.ndjson" % kind)
+    # two numbers being decoded at once by one interpreter (hidden state shared between builders): word sequences of Gen_Apply paired up
+    prm3 = dict(allpairs=False, pairs=250 if q else 3000, randn=250 if q else 3000, seed=ctx.seed % 100000)
+    ap = spell.generate(ctx, "Gen_Apply", prm3)
+    seqs = {}
+    for r in vlib.read_ndjson(ap):
+        if not r["dec"] and len(r["words"]) >= 2:
+            seqs.setdefault(r["lang"], []).append(r["words"])
+    inter = ctx.path("req_interleave.ndjson")
+    with open(inter, "w", encoding="utf-8") as f:
+        for lang, ws in seqs.items():
+            for j in range(0, len(ws) - 1, 2):
+                for via in ("concrete", "facade"):
+                    f.write(json.dumps({"mode": "interleave", "lang": lang, "via": via, "wa": ws[j], "wb": ws[j + 1]}, ensure_ascii=False) + "\n")
+    extra.append(inter)
+    with open(req, "ab") as f:
+        base = 500000000
+        for e in extra:
+            for line in open(e, "rb"):
+                d = json.loads(line)
+                base += 1
+                d["i"] = base
+                d.setdefault("mode", "text")
+                f.write((json.dumps(d, ensure_ascii=False) + "\n").encode("utf-8"))
+    reqs = exec_validate_threads(ctx, req, 8 if q else 16)
+    if reqs is None:
+        return vlib.finish(ctx)
+    nthreads = 8 if q else 16
     ctx.nontrivial = len(reqs)
     for r in list(reqs.values())[:3]:
         ctx.samples.append(dict(lang=r["lang"], mode=r.get("mode"), input=r.get("text") or r.get("words") or r.get("texts") or [r.get("wa"), r.get("wb")], vias=r.get("vias")))
@@ -121,4 +129,11 @@ def run(ctx):
 
 
 def replay(ctx, data):
-    return streams.replay_requests(ctx, "C13", data, module="Val_Calls")
+    reqs = []
+    for c in data.get("cases", []):
+        if c.get("request"):
+            reqs.append(c["request"])
+    req = vlib.write_ndjson(ctx.path("req.ndjson"), reqs)
+    exec_validate_threads(ctx, req, 8)
+    ctx.rule = "replay of %d recorded calls on shared interpreters" % len(reqs)
+    return vlib.finish(ctx)
